@@ -181,6 +181,19 @@ func init() {
 				sep = "\n  "
 			}
 			c.editorCase(strings.Join(words[:k], sep), map[string]any{"edit": "typing"})
+			// ... and in the middle of the next word: its first letter, its first two, all but the last
+			if k < len(words) {
+				w := []rune(words[k])
+				for _, j := range []int{1, 2, len(w) - 1} {
+					if j >= 1 && j < len(w) && (j <= 2 || len(w) > 3) {
+						c.editorCase(strings.Join(words[:k], sep)+sep+string(w[:j]), map[string]any{"edit": "typing-letters"})
+					}
+				}
+			}
+		}
+		for _, t := range []string{"vars {\n\tn", "vars { nu", "vars { n $x }", "vars { mo $m = balance(@a, USD) }\nsend $m (source = @a destination = @b)", "vars { a $a p $p s $s }",
+			"vars { ac $acc }\nsend [USD 1] (source = $acc destination = @b)", "vars { é $x }", "vars { 😀 $x }"} {
+			c.editorCase(t, map[string]any{"edit": "corpus"})
 		}
 		root := NewRand(c.seed)
 		n := c.size(260, 12000)
@@ -203,6 +216,14 @@ func init() {
 					var e2 string
 					toks, e2 = mutateTokens(toks, r)
 					edit += "+" + e2
+				}
+			}
+			if tr := NewRand(c.seed*7919 + uint64(i)); tr.Chance(1, 10) && len(toks) > 0 {
+				// a word cut to its first letter or two (a type, a keyword, a name being typed)
+				j := tr.Intn(len(toks))
+				if w := []rune(toks[j]); len(w) > 1 {
+					toks = append(append(append([]string{}, toks[:j]...), string(w[:1+tr.Intn(2)])), toks[j+1:]...)
+					edit += "+truncate-word"
 				}
 			}
 			text, _ := Render(toks, i%3/2, r)
